@@ -58,6 +58,10 @@ CHAR_TEMPLATES = [
     "Shapiro v. Thompson, 394 U. S. 618, 2 F.2d 2",
     "Smith at 3, 1 U.S. 1; § 5 Id., at 9",
     "Foo v. Bar, 1 U.S. 1 (1999). In Bar at 5, and Foo at 7.",
+    # the case name / citation begins at the very start of the document or ends at its very end
+    "\nv. Wade, 410 U.S. 113, 153 (1973) x",
+    "a v. b, 1 U.S. 1",
+    "Id. at 5 (x) 1 U.S. at 5",
 ]
 CHARS = [" ", ",", ".", "1", "a", "A", "(", ")", "§", "\n", "é", "—", "v", "_"]
 
@@ -120,6 +124,7 @@ def shards(tier, seed):
     out += dd.residue_shards("markup-docs-AC", "mkdocs", "AC", 32)
     for tok in ("AC", "HS"):
         out += dd.residue_shards("transform-sensitive-" + tok, "ts", tok, 16)
+    out += dd.residue_shards("post-AC", "post", "AC", 16, {"more": 1 if tier == "quick" else 2})
     for ti in range(len(TEMPLATES)):
         for tok in ("AC", "HS"):
             out += dd.residue_shards("fragedit-" + tok, "fe", tok, 16 if d["FE"] > 1 else 2, {"t": ti, "edits": d["FE"]})
@@ -135,6 +140,10 @@ def cases_of(sh):
         return pumped_cases(sh)
     if sh["kind"] == "seq":
         return dd.seq_cases(sh, ALPHABETS)
+    if sh["kind"] == "post":
+        from mc.props import c04
+
+        return ({"part": sh["part"], "tok": sh["tok"], "text": t} for t in dd.sliced(c04.post_documents(sh["more"]), sh["r"], sh["n"]))
     if sh["kind"] == "ts":
         return ({"part": sh["part"], "tok": sh["tok"], "text": t} for t in dd.sliced(docspace.ts_documents(3), sh["r"], sh["n"]))
     if sh["kind"] == "mkdocs":
